@@ -77,7 +77,11 @@ Definition zstep_model (σ : store Z) (o : zop) : store Z * outcome Z :=
     else if api then
       of_oresult σ (api_arith Z 0 Z.add (zbin code) σ a b m (eng_arith_vv Z 0 Z.add (zbin code)))
     else of_oresult σ (eng_arith_vv Z 0 Z.add (zbin code) σ a b m)
-  | ZBinS code t s lft m => of_oresult σ (eng_arith_scalar Z 0 Z.add (zbin code) σ t s lft m)
+  | ZBinS code t s lft m =>
+    if (6 <=? code) then
+      of_oresult σ (eng_minmax_scalar Z 0 Z.add (zbin code) σ t s lft
+                      (match m with MUnsafe => CUnsafe | MReuse r => CReuse r | MIncr r => CIncr r | MSafe => CSafe end))
+    else of_oresult σ (eng_arith_scalar Z 0 Z.add (zbin code) σ t s lft m)
   | ZCmp code a b same m api =>
     if api then of_oresult σ (api_cmp Z 0 Z.add (zcmp code) σ a b same m)
     else of_oresult σ (eng_cmp_vv Z 0 Z.add (zcmp code) σ a b same m)
@@ -366,7 +370,12 @@ Definition zguard (σ : store Z) (o : zop) : gclass :=
              else GOk
     | g => g
     end
-  | ZBinS _ t _ _ m => guard_elementwise (tens [t]) (dst_of m) (rsize [t]) (rshape [t])
+  | ZBinS code t _ lft m =>
+    match guard_elementwise (tens [t]) (dst_of m) (rsize [t]) (rshape [t]) with
+    | GOk => if (6 <=? code) && negb lft && existsb (fun d => requires_iterator d) (tens [t]) then GScalarLeftView
+             else if (6 <=? code) && match m with MSafe | MReuse _ => false | _ => true end then GModeUnsupported else GOk
+    | g => g
+    end
   | ZCmp _ a b _ m _ =>
     match guard_elementwise (tens [a; b]) (cdst_of m) (rsize [a]) (rshape [a]) with
     | GOk => if soft a b then GShapeSoft
